@@ -17,6 +17,7 @@ from hypothesis import strategies as st
 # ----------------------------------------------------------------------------------------- pools
 STR_POOL = ["A", "B", "c", "d1", "E_e", "zz", "10", "2", "x y", "K", "m", "Q9", "b", "aa", "Z", ""]
 ORD_POOL = ["low", "mid", "high", "z0", "a9", "M", "k", "top", "B2", "c", "x", "10", "2"]
+ORD_NUM_POOL = [1, 2, 3, 10, 20, 0, -1, 7, 5, 100]
 NUM_CAT_POOLS = {
     "ints": [1, 2, 3, 10, 20, 0, -1, 7],
     "floats": [1.5, 2.0, 3.0, 0.25, 10.0, -2.5, 7.0],
@@ -116,7 +117,7 @@ def target_spec(draw, kinds=("binary", "continuous")):
 
 
 @st.composite
-def feature_spec(draw, name, kind, blocks, dev_mode, dev_blocks, quant_pools=None, allow_missing=True, cat_flavours=None, twin_boost=False):
+def feature_spec(draw, name, kind, blocks, dev_mode, dev_blocks, quant_pools=None, allow_missing=True, cat_flavours=None, twin_boost=False, ordinal_numeric=True):
     n_levels = len(blocks)
     spec = {"name": name, "kind": kind}
     if kind == "continuous":
@@ -133,8 +134,16 @@ def feature_spec(draw, name, kind, blocks, dev_mode, dev_blocks, quant_pools=Non
         spec["pool"] = pool
     elif kind == "ordinal":
         n_mod = draw(st.integers(2, 9))
-        values = draw(st.permutations(ORD_POOL))[:n_mod]
-        spec["ranking"] = list(values)
+        if ordinal_numeric and draw(st.integers(0, 4)) == 0:
+            # integer codes in the column, ranked through their string form (the documented way to order them)
+            values = draw(st.permutations(ORD_NUM_POOL))[:n_mod]
+            spec["ranking"] = [str(v) for v in values]
+            spec["flavour"] = "ints"
+            if draw(st.booleans()):
+                spec["dtype"] = "native"
+        else:
+            values = draw(st.permutations(ORD_POOL))[:n_mod]
+            spec["ranking"] = list(values)
         wpool = WEIGHTS
     elif kind == "categorical":
         flavour = draw(st.sampled_from(cat_flavours or DEFAULT_CAT_FLAVOURS))
